@@ -413,7 +413,7 @@ def construct(run: Any, cls: str, n: ast.Call) -> Any:
             'listed in the contract module)' % cls,
         )
         return obj
-    if getattr(ci, 'opaque', False) and ci.file is None:
+    if getattr(ci, 'opaque', False):
         # an object of an opaque class: fresh abstract state, construction
         # recorded in the effect log
         items = ([obj] + args + [None, None])[:3]
